@@ -103,21 +103,53 @@ def literal_of(facts, b, tr, g):
                 want = None
                 cmpname = None
                 default_false = False
+                PURE = {"as_bytes", "as_ref", "deref", "as_str", "borrow", "as_slice"}
+
+                def cmp_of(node, ftr=None):
+                    """(name, wanted constant) when `node` IS a comparison of the header value itself with a constant."""
+                    r = strip(node)
+                    if r.kind != "call" or r[6] not in ("eq_ignore_ascii_case", "eq", "ne"):
+                        return None
+                    w = None
+                    for a in r[3]:
+                        v = const_str_of(facts, a)
+                        if v is not None:
+                            w = v
+                        elif any(y.kind == "call" and y[6] not in PURE and y[6] not in ("get", "headers", "map", "unwrap_or_else", "unwrap_or") for y in walk(a)):
+                            return (r[6] + "(transformed value)", None)     # compared after split / trim / case folding ...: not the header value itself
+                    return (r[6], w)
+                # closure form: headers.get(H).map(|v| v.as_bytes().eq_ignore_ascii_case(W)) ...
+                direct = set()
+                for x in walk(sp):
+                    if x.kind == "call" and x[6] in ("map", "is_some_and", "map_or", "and_then", "is_none_or") and header_of_get(x[3][0] if x[3] else x):
+                        for a in x[3][1:]:
+                            sa = strip(a)
+                            if sa.kind == "agg" and sa[1] == "closure":
+                                direct.add(sa[2])
+                            elif sa.kind == "closureconst":
+                                direct.add(sa[1])
                 for x in walk(sp):
                     if x.kind == "agg" and x[1] == "closure" and x[2] in facts.by_dp:
                         cb = facts.by_dp[x[2]]
                         ctr = Tracer(facts, cb)
                         r = strip(ctr.local(0))
-                        if r.kind == "call" and r[6] in ("eq_ignore_ascii_case", "eq", "ne"):
-                            cmpname = r[6]
-                            for a in r[3]:
-                                v = const_str_of(facts, a)
-                                if v is not None:
-                                    want = v
+                        if x[2] in direct:
+                            c0 = cmp_of(r)
+                            if c0:
+                                cmpname, want = c0
+                            elif not (r.kind == "const" and r[1] == 0):
+                                cmpname = cmpname or "?"
                         elif r.kind == "const" and r[1] == 0:
                             default_false = True
                     if x.kind == "const" and x[1] == 0 and sp[6] in ("unwrap_or", "map_or"):
                         default_false = True
+                    # expanded form (normalize.py): match headers.get(H) { Some(v) => Some(<comparison>), None => None }
+                    if x.kind == "agg" and x[1] == "adt" and x[2].endswith("Option::Some") and not direct and x[3]:
+                        c0 = cmp_of(x[3][0][1])
+                        if c0:
+                            cmpname, want = c0
+                        else:
+                            cmpname = cmpname or "?"
                 if cmpname == "eq_ignore_ascii_case" and default_false:
                     return ("hdr:%s~%s" % (h, want), True)
                 return ("hdr:%s?%s/%s" % (h, cmpname, want), True)
